@@ -17,6 +17,20 @@
 (* CheckC13: outputs under the erased key are equal (packets of the three entry points; sample  *)
 (*           counts and final ranges of the three decoder formats) and every decode event       *)
 (*           satisfies the sample relations of Objects!SampleRelationOK / ProjectionOK.         *)
+(* Getter snapshots (G events, recorded after every operation on a live object): what the     *)
+(*           getters of an object and of its streams report is a function of its abstract state *)
+(*           too.  CheckC12: equal under the full key - for an object with an empty history     *)
+(*           the key is (kind, cfg, settings), so a reset object must report what a newly        *)
+(*           created one carrying the same settings reports, and what it reported itself before  *)
+(*           its first call; a copy what its original reported.  CheckC13: the control outcome   *)
+(*           read back (last packet duration, final range) is equal under the erased key.        *)
+(* TolerateResetGetters (set by the runner only while the two provisional findings are carried): (1) a decoder that has     *)
+(*           been reset goes on reporting the pitch of the stream before the reset through OPUS_GET_PITCH (until a speech-   *)
+(*           layer frame is decoded) where a new decoder reports 0; (2) between a reset and the next call a multistream      *)
+(*           encoder's streams still carry the bitrate / forced channel count / bandwidth its last encode call gave them.   *)
+(*           Snapshots of exactly that shape (the pitch component of a decoder that has been reset; the snapshot of a reset *)
+(*           multistream encoder with an empty history) are neither compared nor remembered; those that differ from what is *)
+(*           remembered are counted and printed.                                                                            *)
 (* TolerateProj16 (set by the runner only while finding F14 is listed as known): the projection  *)
 (*           decoder's 16-bit relation is waived, counted and printed on runs in which the      *)
 (*           float output comes within 32 units of the 16-bit limits, i.e. where the 16-bit     *)
@@ -24,9 +38,9 @@
 (*           there.                                                                             *)
 (* Every other mismatch leaves the trace unconsumed (REJECTED_AT).                               *)
 EXTENDS Objects, Json, IOUtils
-CONSTANTS CheckC12, CheckC13, TolerateProj16
-VARIABLES l, obj, roots, trF, trE, nextId
-vars == <<l, obj, roots, trF, trE, nextId>>
+CONSTANTS CheckC12, CheckC13, TolerateProj16, TolerateResetGetters
+VARIABLES l, obj, roots, trF, trE, nextId, trG
+vars == <<l, obj, roots, trF, trE, nextId, trG>>
 
 Tr == ndJsonDeserialize(IOEnv.TRACE)
 MAXOBJ == 8
@@ -39,38 +53,40 @@ NewObj(kind, cfg) == [live |-> TRUE, kind |-> kind, cfg |-> cfg, settings |-> No
 \* counters (TLC registers; one worker): 1 full-key comparisons, 2 erased-key comparisons, 3 comparisons on copies,
 \* 4 comparisons on reset objects, 5 erased-key comparisons between different formats,
 \* 6 decode events with samples beyond +-1 whose 16-bit relation was evaluated, 7 projection events evaluated,
-\* 8 projection events let through as the known 16-bit wrap
+\* 8 projection events let through as the known 16-bit wrap, 9 getter snapshots compared under the full key,
+\* 10 of these on reset objects with an empty history, 11 getter snapshots compared under the erased key,
+\* 12 snapshots of reset objects that differ in the tolerated shape
 Holds(b) == b = TRUE      \* evaluate a formula as a value (TLC would otherwise split the action on its disjunctions)
 Bump(i) == TLCSet(i, TLCGet(i) + 1)
 BumpIf(b, i) == IF b THEN Bump(i) ELSE TRUE
 
-Init == /\ l = 1 /\ obj = [o \in Slots |-> DeadObj] /\ roots = << >> /\ trF = << >> /\ trE = << >> /\ nextId = 1
-        /\ \A i \in 1..8 : TLCSet(i, 0)
+Init == /\ l = 1 /\ obj = [o \in Slots |-> DeadObj] /\ roots = << >> /\ trF = << >> /\ trE = << >> /\ nextId = 1 /\ trG = << >>
+        /\ \A i \in 1..12 : TLCSet(i, 0)
 
 Ev == Tr[l]
 More == l <= Len(Tr)
 
 \* ---- events that do not touch an object's history ------------------------------------------
-TSkip == /\ More /\ Ev.k \in {"P", "B"} /\ l' = l + 1 /\ UNCHANGED <<obj, roots, trF, trE, nextId>>
+TSkip == /\ More /\ Ev.k \in {"P", "B"} /\ l' = l + 1 /\ UNCHANGED <<obj, roots, trF, trE, nextId, trG>>
 
 THist == /\ More /\ Ev.k = "H" /\ obj' = [o \in Slots |-> DeadObj] /\ l' = l + 1
-         /\ UNCHANGED <<roots, trF, trE, nextId>>
+         /\ UNCHANGED <<roots, trF, trE, nextId, trG>>
 
 TCreate == /\ More /\ Ev.k = "C" /\ Ev.o \in Slots
            /\ obj' = [obj EXCEPT ![Ev.o] = IF Ev.rc = 0 THEN NewObj(Ev.kind, Ev.cfg) ELSE DeadObj]
-           /\ l' = l + 1 /\ UNCHANGED <<roots, trF, trE, nextId>>
+           /\ l' = l + 1 /\ UNCHANGED <<roots, trF, trE, nextId, trG>>
 
 TCopy == /\ More /\ Ev.k = "Y" /\ Ev.o \in Slots /\ Ev.o2 \in Slots /\ obj[Ev.o].live
          /\ obj' = [obj EXCEPT ![Ev.o2] = [obj[Ev.o] EXCEPT !.copied = TRUE]]
-         /\ l' = l + 1 /\ UNCHANGED <<roots, trF, trE, nextId>>
+         /\ l' = l + 1 /\ UNCHANGED <<roots, trF, trE, nextId, trG>>
 
 TReset == /\ More /\ Ev.k = "R" /\ Ev.o \in Slots /\ obj[Ev.o].live /\ Ev.rc = 0
           /\ obj' = [obj EXCEPT ![Ev.o] = [@ EXCEPT !.nf = 0, !.ne = 0, !.wasReset = TRUE, !.sov = FALSE]]
-          /\ l' = l + 1 /\ UNCHANGED <<roots, trF, trE, nextId>>
+          /\ l' = l + 1 /\ UNCHANGED <<roots, trF, trE, nextId, trG>>
 
 TDestroy == /\ More /\ Ev.k = "X" /\ Ev.o \in Slots /\ obj[Ev.o].live
             /\ obj' = [obj EXCEPT ![Ev.o] = DeadObj]
-            /\ l' = l + 1 /\ UNCHANGED <<roots, trF, trE, nextId>>
+            /\ l' = l + 1 /\ UNCHANGED <<roots, trF, trE, nextId, trG>>
 
 \* ---- a call that extends the history: look the key up, compare or remember ------------------
 \* c: the call as the model sees it; outF / outE: what is compared under the full / erased key
@@ -103,6 +119,7 @@ Step(o, c, outF, outE, st2) ==
      /\ obj' = [obj EXCEPT ![o] = [st2 EXCEPT !.nf = nfN, !.ne = neN]]
      /\ BumpIf(sF, 1) /\ BumpIf(sE, 2) /\ BumpIf(sF /\ st.copied, 3) /\ BumpIf(sF /\ st.wasReset, 4)
      /\ BumpIf(sE /\ "fmt" \in DOMAIN c /\ trE[kE].fmt # c.fmt, 5)
+     /\ UNCHANGED trG
 
 TCtl ==
   /\ More /\ Ev.k = "T" /\ Ev.o \in Slots /\ obj[Ev.o].live
@@ -111,7 +128,7 @@ TCtl ==
          s2 == SetTo(st.settings, CtlKey(Ev.req, ok), Ev.v)
      IN IF st.nf = 0
           THEN /\ obj' = [obj EXCEPT ![Ev.o].settings = s2]
-               /\ UNCHANGED <<roots, trF, trE, nextId>>
+               /\ UNCHANGED <<roots, trF, trE, nextId, trG>>
           ELSE LET c == [op |-> "ctl", req |-> Ev.req, v |-> Ev.v] out == [rc |-> Ev.rc]
                IN Step(Ev.o, c, out, out, [st EXCEPT !.settings = s2])
   /\ l' = l + 1
@@ -129,7 +146,7 @@ TDecode ==
   /\ More /\ Ev.k = "D" /\ Ev.o \in Slots /\ obj[Ev.o].live /\ obj[Ev.o].kind \in DecKinds
   /\ LET e == Ev
          st == obj[e.o]
-         c == [op |-> "run", fmt |-> e.fmt, pd |-> e.pd, n |-> e.n, mode |-> e.mode, fs |-> e.fs]
+         c == [op |-> "run", fmt |-> e.fmt, pd |-> e.pd, n |-> e.n, mode |-> e.mode, fs |-> e.fs, fq |-> e.fq]
          \* dF digests (PCM of every call, sample counts, final ranges); dE the same of the float twin, which is what
          \* objects in different formats have in common once the event's own relations (rel) hold
          outF == [rc |-> e.rc, d |-> e.dF]
@@ -147,12 +164,43 @@ TDecode ==
         /\ IF CheckC13 /\ st.kind = "P" /\ ~sov2 /\ ~ProjectionOK(e.fmt, e) THEN PrintT(<<"TOLERATED_PROJ", l>>) ELSE TRUE
   /\ l' = l + 1
 
-Next == TSkip \/ THist \/ TCreate \/ TCopy \/ TReset \/ TDestroy \/ TCtl \/ TEncode \/ TDecode
+\* ---- a getter snapshot: no effect on the object; compared with what was read in the same abstract state before ------
+TGet ==
+  /\ More /\ Ev.k = "G" /\ Ev.o \in Slots /\ obj[Ev.o].live
+  /\ LET st == obj[Ev.o]
+         atRoot == st.nf = 0
+         rootKey == <<"r", st.kind, st.cfg, st.settings>>
+         kF == IF atRoot THEN <<"F">> \o rootKey ELSE <<"F", "n", st.nf>>
+         kP == IF atRoot THEN <<"P">> \o rootKey ELSE <<"P", "n", st.nf>>
+         kE == IF atRoot THEN <<"E">> \o rootKey ELSE <<"E", "n", st.ne>>
+         outF == [g |-> Ev.g, gs |-> Ev.gs]
+         outP == [gp |-> Ev.gp]
+         outE == [gc |-> Ev.gc]
+         sF == kF \in DOMAIN trG
+         sP == kP \in DOMAIN trG
+         sE == kE \in DOMAIN trG
+         eqF == sF => trG[kF] = outF
+         eqP == sP => trG[kP] = outP
+         eqE == sE => trG[kE] = outE
+         resetRoot == atRoot /\ st.wasReset
+         tolF == TolerateResetGetters /\ resetRoot /\ st.kind = "E"
+         tolP == TolerateResetGetters /\ ((st.wasReset /\ st.kind \in DecKinds) \/ (resetRoot /\ st.kind = "E"))
+     IN /\ CheckC12 => Holds(tolF \/ eqF)
+        /\ CheckC12 => Holds(tolP \/ eqP)
+        /\ CheckC13 => Holds(eqE \/ ~eqF)
+        /\ trG' = (IF sF \/ tolF THEN << >> ELSE (kF :> outF)) @@ (IF sP \/ tolP THEN << >> ELSE (kP :> outP))
+                   @@ (IF sE THEN << >> ELSE (kE :> outE)) @@ trG
+        /\ BumpIf(sF /\ ~tolF, 9) /\ BumpIf(sF /\ resetRoot /\ ~tolF, 10) /\ BumpIf(sE, 11)
+        /\ BumpIf(CheckC12 /\ ((tolF /\ ~eqF) \/ (tolP /\ ~eqP)), 12)
+        /\ IF CheckC12 /\ ((tolF /\ ~eqF) \/ (tolP /\ ~eqP)) THEN PrintT(<<"TOLERATED_GET", l>>) ELSE TRUE
+  /\ l' = l + 1 /\ UNCHANGED <<obj, roots, trF, trE, nextId>>
+
+Next == TSkip \/ THist \/ TCreate \/ TCopy \/ TReset \/ TDestroy \/ TCtl \/ TEncode \/ TDecode \/ TGet
 Spec == Init /\ [][Next]_vars
 
 Accepted ==
   LET n == TLCGet("stats").diameter IN
-  /\ PrintT(<<"STATS", TLCGet(1), TLCGet(2), TLCGet(3), TLCGet(4), TLCGet(5), TLCGet(6), TLCGet(7), TLCGet(8)>>)
+  /\ PrintT(<<"STATS", TLCGet(1), TLCGet(2), TLCGet(3), TLCGet(4), TLCGet(5), TLCGet(6), TLCGet(7), TLCGet(8), TLCGet(9), TLCGet(10), TLCGet(11), TLCGet(12)>>)
   /\ IF n - 1 = Len(Tr) THEN TRUE
      ELSE PrintT(<<"REJECTED_AT", n, ToString(Tr[n])>>)
 =============================================================================
